@@ -20,6 +20,7 @@ ID = "C18"
 CFG_TIMEOUT_S = {"quick": 600, "thorough": 1800}
 
 META = dict(
+    technique='generators: plain enumeration (no numeric input exists); weight()/affine maps/invariance: symbolic execution + z3 (QF_NRA); float normalize(): concolic execution with z3 Float64 (QF_FP) query per seed path',
     bounds=dict(
         quick="generators: degree 0..4, npts <= 12 (uniform/float up to 64), cls int/float/Fraction (plain enumeration, no solver: "
               "they have no numeric input); weight(): degree 0..3, 1..4 symbolic weights; affine maps and invariance: "
